@@ -26,17 +26,35 @@ FORM_INVS = isa.DESIGN_INVS + ["ExportForm"]
 
 
 def render_prog(rec, variant):
+    """every third program writes all its numbers as symbols that are defined at the end of the text (forward references: the
+    instruction is completed when the whole program is known)"""
     lines = [".link %o" % rec["base"]]
+    symtab = [] if variant % 3 == 0 else None
     for k, ins in enumerate(rec["ins"]):
         r = {"op": ins["op"], "args": ins["args"], "a": ins["a"], "sh": "std"}
-        lines.append(isa.instr_text(r, variant + k))
+        lines.append(isa.instr_text(r, variant + k, symtab=symtab))
+    for name, v in (symtab or []):
+        lines.append("%s = %s" % (name, isa.octs(v)))
     return "\n".join(lines) + "\n"
+
+
+def split_prog(src, variant):
+    """-> (main text, fs): every fourth program stands in two sibling include files (the instructions are the same, in the same order
+    at the same addresses; the symbol definitions stay in the main file and are exported)"""
+    lines = src.splitlines()
+    ins = [ln for ln in lines[1:] if " = " not in ln]
+    defs = [ln.replace(" = ", " == ") for ln in lines[1:] if " = " in ln]
+    if variant % 4 != 1 or len(ins) < 4:
+        return src, None
+    h = len(ins) // 2
+    fs = {"part1.mac": "\n".join(ins[:h]) + "\n", "part2.mac": "\n".join(ins[h:]) + "\n"}
+    return "\n".join([lines[0], '.include "part1.mac"', '.include "part2.mac"'] + defs) + "\n", fs
 
 
 def run_prog(task):
     rec, variant = task
-    src = render_prog(rec, variant)
-    r = asm([("prog.mac", src)], timeout=60)
+    src, fs = split_prog(render_prog(rec, variant), variant)
+    r = asm([("prog.mac", src)], timeout=60, fs=fs)
     want = isa.words_bytes(rec["image"])
     if r["outcome"] == "ok" and r["code"] == want and r["base"] == rec["base"]:
         return None
@@ -47,7 +65,7 @@ def run_prog(task):
             off = ins["a"] - rec["base"]
             if code[off:off + 2 * len(ins["w"])] != isa.words_bytes(ins["w"]):
                 got = code[off:off + 2 * len(ins["w"])]
-                where = (k, src.splitlines()[k + 1], ins["a"], isa.fmt_words(ins["w"]),
+                where = (k, isa.instr_text({"op": ins["op"], "args": ins["args"], "a": ins["a"], "sh": "std"}, variant + k), ins["a"], isa.fmt_words(ins["w"]),
                          isa.fmt_words([int.from_bytes(got[i:i + 2], "little") for i in range(0, len(got) - 1, 2)]))
                 break
     return (src, r["outcome"], where, r["exc"], [x[1] for x in r["reports"]][:6], len(r["code"]) if r["code"] is not None else None, len(want))
@@ -86,23 +104,30 @@ def main(run):
                                             "ExportProg"]),
                      simulate=nprog, depth=plen * 10 + 5, seed=run.seed + 1, workers=1,
                      label=f"ISA prog: mixed programs of {plen} instructions (simulation)", timeout=1500))
+    # programs over the mnemonics with an inline number only (the same mnemonic several times in one program), all written with
+    # forward-referenced symbols
+    jobs.append(dict(cfg_text=isa.cfg(mode="prog", ops=["emt", "sys", "trap", "mark", "xfc", "spl", "nop"], gen="all", vals="mid", tgts="full", dists="reach",
+                                      bases=[0o1000], proglen=10,
+                                      invs=["TypeOK", "DecodeRecoversSource", "ImageDecodes", "ExportProg"]),
+                     simulate=(300 if thorough else 40), depth=10 * 10 + 5, seed=run.seed + 2, workers=1,
+                     label="ISA prog: programs of 10 inline-number instructions (simulation)", timeout=900))
     results = isa.tlc_parallel(jobs)
     for res in results:
         run.add_tlc(res)
         if res.violated:
             run.violation(f"model: invariant {res.violated} violated in ISA.tla ({res.label})", {"tail": res.tail})
-    sim = results[-1]
+    sim, sim_inline = results[-2], results[-1]
     if len(rp.mnemonics) != 252:
         raise MachineryError(f"expected forms of 252 mnemonics, got {len(rp.mnemonics)}")
     rp.replay("C01 form")
     for base, items in rp.by_base.items():
-        for ln, w in items:
-            run.add_nontrivial((base, ln))
+        for it in items:
+            run.add_nontrivial((base, it[0]))
     for rec, variant in rp.alone:
         run.add_nontrivial((rec["a"], rec["sh"], isa.render_alone(rec, variant)[0]))
     isa.trace_check(run, rp.trace_cases, "C01 form", "ISA trace: processor machine on the real words of the forms assembled alone")
 
-    ptasks = [(rec, i + run.seed) for i, rec in enumerate(sim.exports)]
+    ptasks = [(rec, i + run.seed) for i, rec in enumerate(sim.exports)] + [(rec, 3 * (i + run.seed)) for i, rec in enumerate(sim_inline.exports)]
     for (rec, variant), bad in zip(ptasks, pmap(run_prog, ptasks)):
         if bad is not None:
             run.violation(f"C01 mixed program at {rec['base']:o}: outcome={bad[1]} first differing statement={bad[2]} exc={bad[3]} "
@@ -122,7 +147,7 @@ def main(run):
         rec, variant = rp.alone[len(rp.alone) // 2]
         run.sample({"source": isa.render_alone(rec, variant)[0], "predicted": isa.fmt_words(rec["w"]) if rec["ok"] else "refused"})
     for base, items in list(rp.by_base.items())[:2]:
-        ln, w = items[len(items) // 3]
+        ln, w = items[len(items) // 3][:2]
         run.sample({"source": ln, "base": "%o" % base, "predicted": isa.fmt_words(w)})
     if ptasks:
         run.sample({"mixed_program_head": render_prog(ptasks[0][0], ptasks[0][1]).splitlines()[:6],
